@@ -697,6 +697,8 @@ pub struct RulesCfg {
     pub encrypt: EncryptionOptions,
     pub fail_filter: bool,
     pub custom_needs_path: bool,
+    /// this device's client does not register the custom group-context extension type (C10: capabilities)
+    pub legacy: bool,
 }
 
 impl Default for RulesCfg {
@@ -706,6 +708,7 @@ impl Default for RulesCfg {
             encrypt: EncryptionOptions::default(),
             fail_filter: false,
             custom_needs_path: true,
+            legacy: false,
         }
     }
 }
